@@ -49,17 +49,19 @@ def Ctl.preTry : Ctl → Bool
 @[simp] theorem submitPlain_outs (e : Env) (t : Tid) (w : Wid) : (submitPlain e t w).outs = e.outs := rfl
 
 /-- What `settle` does to the controller of thread `t`. -/
-theorem settle_spec (e : Env) (t : Tid) (i : Bool) :
-    ((settle e t i).ctl t = e.ctl t ∧ (settle e t i).outs t = e.outs t) ∨
-    (i = true ∧ (settle e t i).ctl t = .idle ∧
-      ((∃ p o, e.ctl t = .fin p o ∧ (settle e t i).outs t = e.outs t ++ [o]) ∨
-       (∃ p, e.ctl t = .rErr p ∧ (settle e t i).outs t = e.outs t ++ [.notStarted]))) := by
+theorem settle_spec (e : Env) (t : Tid) (i : Bool) (r : Option Res) :
+    ((settle e t i r).ctl t = e.ctl t ∧ (settle e t i r).outs t = e.outs t) ∨
+    (i = true ∧ (settle e t i r).ctl t = .idle ∧
+      ((∃ p o, e.ctl t = .fin p o ∧ (settle e t i r).outs t = e.outs t ++ [o]) ∨
+       (∃ p, e.ctl t = .rErr p ∧ (settle e t i r).outs t = e.outs t ++ [.notStarted]) ∨
+       (∃ p b w, e.ctl t = .sSub p b w ∧ (settle e t i r).outs t = e.outs t ++ [.ok]))) := by
   unfold settle
   cases i with
   | false => simp
   | true =>
     simp only [if_true]
     cases hc : e.ctl t <;> simp [hc]
+    split <;> simp [hc]
 
 /-- An `Owner` step whose environment update does not touch the controller: the controller of `t` is unchanged, or the
 step ended the last piece of a composite operation (`fin` / `rErr`) and `settle` recorded its outcome. -/
@@ -68,13 +70,14 @@ theorem ostep_ctl {pw : Pid → List Wid} {x x' : X} {t : Tid} {b : Bool} {f : E
     (x'.env.ctl t = (f x.env).ctl t ∧ x'.env.outs t = (f x.env).outs t) ∨
     ((x'.base.T t).cur = none ∧ x'.env.ctl t = .idle ∧
       ((∃ p o, (f x.env).ctl t = .fin p o ∧ x'.env.outs t = (f x.env).outs t ++ [o]) ∨
-       (∃ p, (f x.env).ctl t = .rErr p ∧ x'.env.outs t = (f x.env).outs t ++ [.notStarted]))) := by
+       (∃ p, (f x.env).ctl t = .rErr p ∧ x'.env.outs t = (f x.env).outs t ++ [.notStarted]) ∨
+       (∃ p b w, (f x.env).ctl t = .sSub p b w ∧ x'.env.outs t = (f x.env).outs t ++ [.ok]))) := by
   unfold ostep at h
   cases hs : step? pw (fun _ => b) x.base t with
   | none => simp [hs] at h
   | some c' =>
     simp [hs] at h; subst h
-    rcases settle_spec (f x.env) t (c'.T t).cur.isNone with h1 | ⟨hi, h2⟩
+    rcases settle_spec (f x.env) t (c'.T t).cur.isNone (c'.T t).results.getLast? with h1 | ⟨hi, h2⟩
     · exact Or.inl h1
     · refine Or.inr ⟨?_, h2⟩
       simpa using hi
@@ -87,7 +90,8 @@ theorem xstep_ctl_inCall {pw : Pid → List Wid} {x x' : X} {t : Tid} {cl : Call
     (x'.env.ctl t = x.env.ctl t ∧ x'.env.outs t = x.env.outs t) ∨
     ((x'.base.T t).cur = none ∧ x'.env.ctl t = .idle ∧
       ((∃ p o, x.env.ctl t = .fin p o ∧ x'.env.outs t = x.env.outs t ++ [o]) ∨
-       (∃ p, x.env.ctl t = .rErr p ∧ x'.env.outs t = x.env.outs t ++ [.notStarted]))) := by
+       (∃ p, x.env.ctl t = .rErr p ∧ x'.env.outs t = x.env.outs t ++ [.notStarted]) ∨
+       (∃ p b w, x.env.ctl t = .sSub p b w ∧ x'.env.outs t = x.env.outs t ++ [.ok]))) := by
   unfold xstep? at h
   simp only [hcur] at h
   repeat' split at h
@@ -125,8 +129,9 @@ theorem xstep_fin_exit {pw : Pid → List Wid} {x x' : X} {t : Tid} {cl : Call} 
   rcases xstep_ctl_inCall hcur h with ⟨h1, _⟩ | ⟨hnone, _, h2⟩
   · rw [h1, hctl] at hidle; exact absurd hidle (by simp)
   · have hout : x'.env.outs t = x.env.outs t ++ [o] := by
-      rcases h2 with ⟨p', o', hc, ho⟩ | ⟨p', hc, _⟩
+      rcases h2 with ⟨p', o', hc, ho⟩ | ⟨p', hc, _⟩ | ⟨p', b', w', hc, _⟩
       · rw [hctl] at hc; cases hc; exact ho
+      · rw [hctl] at hc; exact absurd hc (by simp)
       · rw [hctl] at hc; exact absurd hc (by simp)
     refine ⟨hnone, ?_, hout⟩
     rcases xstep_base h with hb | ⟨u, hb⟩
@@ -141,7 +146,8 @@ theorem startPiece_ctl {pw : Pid → List Wid} {x x' : X} {t : Tid} {op : Op} {f
     (x'.env.ctl t = (f x.env).ctl t ∧ x'.env.outs t = (f x.env).outs t) ∨
     ((x'.base.T t).cur = none ∧ x'.env.ctl t = .idle ∧
       ((∃ p o, (f x.env).ctl t = .fin p o ∧ x'.env.outs t = (f x.env).outs t ++ [o]) ∨
-       (∃ p, (f x.env).ctl t = .rErr p ∧ x'.env.outs t = (f x.env).outs t ++ [.notStarted]))) := by
+       (∃ p, (f x.env).ctl t = .rErr p ∧ x'.env.outs t = (f x.env).outs t ++ [.notStarted]) ∨
+       (∃ p b w, (f x.env).ctl t = .sSub p b w ∧ x'.env.outs t = (f x.env).outs t ++ [.ok]))) := by
   unfold startPiece at h
   split at h
   · split at h
@@ -174,19 +180,21 @@ theorem xstep_try {pw : Pid → List Wid} {x x' : X} {t : Tid} (hcur : (x.base.T
              | (right; left; exact ⟨_, _, h1⟩)
          · right; right
            refine ⟨hi, ?_⟩
-           rcases h2 with ⟨p', o', hf, ho⟩ | ⟨p', hf, _⟩
+           rcases h2 with ⟨p', o', hf, ho⟩ | ⟨p', hf, _⟩ | ⟨p', b', w', hf, _⟩
            · first
                | (simp [hc] at hf; done)
                | (simp at hf ho; obtain ⟨_, hf2⟩ := hf; subst hf2; refine ⟨_, ?_, ho, hn⟩; first | simp | (split <;> simp))
+           · simp [hc] at hf
            · simp [hc] at hf)
       | (rcases startPiece_ctl h with ⟨h1, _⟩ | ⟨hn, hi, h2⟩
          · right; left; exact ⟨_, _, by simpa using h1⟩
          · right; right
            refine ⟨hi, ?_⟩
-           rcases h2 with ⟨p', o', hf, ho⟩ | ⟨p', hf, _⟩
+           rcases h2 with ⟨p', o', hf, ho⟩ | ⟨p', hf, _⟩ | ⟨p', b', w', hf, _⟩
            · simp only [setCtl_ctl, Ctl.fin.injEq] at hf
              refine ⟨o', ?_, by simpa using ho, hn⟩
              rw [← hf.2]; split <;> simp
+           · simp at hf
            · simp at hf)
       | (simp at h; done)
 
@@ -211,9 +219,10 @@ theorem xstep_pretry {pw : Pid → List Wid} {x x' : X} {t : Tid} (hcur : (x.bas
              | (right; left; rw [h1]; rfl)
          · right; right
            refine ⟨hi, ?_⟩
-           rcases h2 with ⟨p', o', hf, _⟩ | ⟨p', _, ho⟩
+           rcases h2 with ⟨p', o', hf, _⟩ | ⟨p', _, ho⟩ | ⟨p', b', w', hf, _⟩
            · simp at hf
-           · simpa using ho)
+           · simpa using ho
+           · simp at hf)
       | (simp at h; done)
 
 end MlModel.OwnerEnv
